@@ -6,6 +6,7 @@ import (
 	"bytes"
 	"context"
 	"encoding/json"
+	"errors"
 	"log"
 	"net"
 	"net/http/httptest"
@@ -28,15 +29,25 @@ import (
 
 // pathState is a per-interface mutable system.State.
 type pathState struct {
-	mu sync.Mutex
-	fw map[string]bool
+	mu       sync.Mutex
+	fw       map[string]bool
+	failNext map[string]bool // the next IPv6Forwarding read for the interface fails (once)
 }
 
 func (s *pathState) IPv6Autoconf(string) (bool, error) { return false, nil }
 func (s *pathState) IPv6Forwarding(i string) (bool, error) {
 	s.mu.Lock()
 	defer s.mu.Unlock()
+	if s.failNext[i] {
+		s.failNext[i] = false
+		return false, errors.New("scripted: transient failure reading the forwarding sysctl")
+	}
 	return s.fw[i], nil
+}
+func (s *pathState) fail(i string) {
+	s.mu.Lock()
+	s.failNext[i] = true
+	s.mu.Unlock()
 }
 func (s *pathState) SetIPv6Autoconf(string, bool) error { return nil }
 func (s *pathState) set(i string, b bool) {
@@ -79,6 +90,7 @@ const (
 )
 
 type pathOp struct {
+	fail  bool // the next forwarding read of the interface fails
 	flip  bool
 	iface int
 	b     bool
@@ -89,7 +101,7 @@ type pathOp struct {
 // interfaces in virtual time and records what each generation produced.
 func runPaths(t *testing.T, out *vfh.Out, lifetimes [2]time.Duration, ops []pathOp) {
 	synctest.Test(t, func(t *testing.T) {
-		st := &pathState{fw: map[string]bool{"vf0": true, "vf1": true}}
+		st := &pathState{fw: map[string]bool{"vf0": true, "vf1": true}, failNext: map[string]bool{}}
 		logs := &syncBuf{}
 		ll := log.New(logs, "", 0)
 		var ifis [2]*pathIface
@@ -146,6 +158,11 @@ func runPaths(t *testing.T, out *vfh.Out, lifetimes [2]time.Duration, ops []path
 		}
 		for _, op := range ops {
 			pi := ifis[op.iface]
+			if op.fail {
+				c.S("X").N(op.iface)
+				st.fail(pi.name)
+				continue
+			}
 			if op.flip {
 				c.S("F").N(op.iface).B(op.b)
 				st.set(pi.name, op.b)
@@ -158,6 +175,16 @@ func runPaths(t *testing.T, out *vfh.Out, lifetimes [2]time.Duration, ops []path
 					return 1
 				}
 				return 0
+			}
+			// has the advertiser ended on its own (an RA could not be built)?
+			for _, q := range ifis {
+				if !q.stopped {
+					select {
+					case <-q.done:
+						q.stopped = true
+					default:
+					}
+				}
 			}
 			if pi.stopped && op.path != pScrape && op.path != pAPI {
 				obs(op.iface, op.path, -2, -2) // the advertiser is gone: nothing to generate
@@ -175,6 +202,10 @@ func runPaths(t *testing.T, out *vfh.Out, lifetimes [2]time.Duration, ops []path
 					continue
 				}
 				ws := pi.conns[len(pi.conns)-1].snapshot()
+				if len(ws) == 0 {
+					obs(op.iface, op.path, -3, -3)
+					continue
+				}
 				obs(op.iface, op.path, int64(ws[0].ra.RouterLifetime), mis())
 			case pPeriodic:
 				conn := pi.conns[len(pi.conns)-1]
@@ -191,13 +222,14 @@ func runPaths(t *testing.T, out *vfh.Out, lifetimes [2]time.Duration, ops []path
 				obs(op.iface, op.path, int64(w.ra.RouterLifetime), mis())
 			case pSolicited:
 				conn := pi.conns[len(pi.conns)-1]
+				nBefore := len(conn.snapshot())
 				conn.deliver(vfRead{m: &ndp.RouterSolicitation{}, hop: 255, host: vfHosts[1].WithZone(pi.name)})
 				synctest.Wait()
 				time.Sleep(600 * time.Millisecond)
 				synctest.Wait()
 				var got *vfWrite
-				for _, w := range conn.snapshot() {
-					if w.dst == vfHosts[1] {
+				for k, w := range conn.snapshot() {
+					if k >= nBefore && w.dst == vfHosts[1] {
 						w := w
 						got = &w
 					}
@@ -208,18 +240,19 @@ func runPaths(t *testing.T, out *vfh.Out, lifetimes [2]time.Duration, ops []path
 				}
 				obs(op.iface, op.path, int64(got.ra.RouterLifetime), mis())
 			case pFinal:
+				nBefore := len(pi.conns[len(pi.conns)-1].snapshot())
 				pi.cancel()
 				select {
 				case <-pi.done:
 				case <-time.After(time.Minute):
 				}
 				pi.stopped = true
-				w := lastWrite(pi)
-				if w == nil || w.dst != vfAllNodes {
+				ws := pi.conns[len(pi.conns)-1].snapshot()
+				if len(ws) != nBefore+1 || ws[len(ws)-1].dst != vfAllNodes {
 					obs(op.iface, op.path, -3, -3)
 					continue
 				}
-				obs(op.iface, op.path, int64(w.ra.RouterLifetime), mis())
+				obs(op.iface, op.path, int64(ws[len(ws)-1].ra.RouterLifetime), mis())
 			case pVerify:
 				conn := pi.conns[len(pi.conns)-1]
 				n := len(pi.ours)
@@ -326,11 +359,23 @@ func verifC04Paths(t *testing.T, r *vfh.Rand, out *vfh.Out) {
 		}
 	}
 	rec(nil, true, 0)
+	// a forwarding flip followed by a transient failure of the very next forwarding read: the RA must
+	// not be built from a remembered value
+	for _, p := range []int{pPeriodic, pSolicited, pVerify, pScrape, pAPI, pInitial} {
+		for _, b := range []bool{false, true} {
+			runPaths(t, out, lts[1], []pathOp{{iface: 0, path: pSolicited}, {flip: true, iface: 0, b: b}, {fail: true, iface: 0},
+				{iface: 0, path: p}, {iface: 0, path: pAPI}, {iface: 1, path: pSolicited}})
+		}
+	}
 	n := vfh.N(60, 2000)
 	for i := 0; i < n; i++ {
 		var ops []pathOp
 		for k := 2 + r.Intn(24); k > 0; k-- {
-			if r.Chance(1, 3) {
+			if r.Chance(1, 12) {
+				i := r.Intn(2)
+				ops = append(ops, pathOp{fail: true, iface: i},
+					pathOp{iface: i, path: vfh.Pick(r, []int{pPeriodic, pSolicited, pVerify, pScrape, pAPI, pInitial})})
+			} else if r.Chance(1, 3) {
 				ops = append(ops, pathOp{flip: true, iface: r.Intn(2), b: r.Bool()})
 			} else {
 				p := vfh.Pick(r, paths)
